@@ -309,7 +309,7 @@ func WritePkgCode(pkg *Archive, dceSelection map[*Decl]struct{}, gls linkname.Go
 			// callers via $linkname object (declared in prelude). We are not using
 			// $pkg to avoid clashes with exported symbols.
 			if recv, method, ok := d.LinkingName.IsMethod(); ok {
-				if _, err := writeF(w, minify, "\t$linknames[%q] = $unsafeMethodToFunction(%v,%q,%t);\n", d.LinkingName.String(), d.NamedRecvType, method, strings.HasPrefix(recv, "*")); err != nil {
+				if _, err := writeF(w, minify, "\t$linknames[%q] = $unsafeMethodToFunction(%v,%q,%t);\n", d.LinkingName.String(), d.NamedRecvType, sanitizeName(method), strings.HasPrefix(recv, "*")); err != nil {
 					return err
 				}
 			} else {
